@@ -166,6 +166,18 @@ CHECKS = {
         technique="runtime oracle monitor: encoder-side truth vs decoder, cell-membership and monotonicity assertions on sampled deviate pairs",
         design="DESIGN.md section 2, C14",
     ),
+    "C15": dict(
+        script="checks/c15.py",
+        level="exploration",
+        text="Coverage-guided fuzzing (libFuzzer + ASan + UBSan, allocation and time limits) of three in-process targets - event_reader over 1-3 "
+             "files with start/max, dbd_gA::initialize for both table kinds followed by bounded shots, load_optimized_cdf_array - seeded with the shipped "
+             "samples, the Test table, synthetic gA files and a structure-aware mutation pass; after every successful load the monitor applies the "
+             "loader's own predicate. Artifacts are re-run alone for triage and keyed target|kind|frames. Catalogue list files: one process per mutated "
+             "resource directory (ASan build), outcome must be a clean error or a catalogue satisfying its predicate.",
+        note="Bounded by -runs (2e5 per target quick, 2e7 thorough), not by time; timeouts count as hangs only if they reproduce stand-alone.",
+        technique="coverage-guided fuzzing under AddressSanitizer/UndefinedBehaviorSanitizer with predicate monitors",
+        design="DESIGN.md section 2, C15",
+    ),
     "C16": dict(
         script="checks/c16.py",
         level="exploration",
